@@ -413,7 +413,7 @@ impl<C: Ctl> Sys for Cc<C> {
     }
 }
 
-pub const FAMILIES: &[&str] = &["cubic", "bbr"];
+pub const FAMILIES: &[&str] = &["cubic", "bbr", "persistent"];
 
 const MTUS: &[u16] = &[1200, 1500, 9000];
 
@@ -424,6 +424,10 @@ fn limits(tier: Tier, cubic: bool) -> Limits {
 }
 
 pub fn run(family: &str, tier: Tier, out: &mut Output) {
+    if family == "persistent" {
+        out.push(enumerate("seqmc", "c10.persistent", pc_cases(), tier.pick(60.0, 300.0), &pc_check, &pc_describe));
+        return;
+    }
     for &mtu in MTUS {
         let cfg = Json::obj().set("controller", family).set("max_datagram_size", mtu);
         match family {
@@ -435,10 +439,139 @@ pub fn run(family: &str, tier: Tier, out: &mut Output) {
 }
 
 pub fn replay(family: &str, cfg: &Json, hist: &[u16]) -> Result<Vec<String>, (Vec<String>, Violation)> {
+    if family == "persistent" {
+        let i = cfg.get("case_index").and_then(|v| v.as_i128()).unwrap_or(0) as u64;
+        return match pc_check(i) {
+            Ok(_) => Ok(vec![format!("{}", pc_describe(i).to_string())]),
+            Err(v) => Err((vec![format!("{}", pc_describe(i).to_string())], v)),
+        };
+    }
     let mtu = cfg.get("max_datagram_size").and_then(|v| v.as_i128()).unwrap_or(1200) as u16;
     match family {
         "cubic" => replay_history(&move || Cc::<CubicCongestionController>::new(mtu), hist),
         "bbr" => replay_history(&move || Cc::<BbrCongestionController>::new(mtu), hist),
         _ => panic!("unknown c10 family {}", family),
     }
+}
+
+
+// ---------------------------------------------------------------------------------------------
+// c10.persistent - the persistent congestion period calculator (RFC 9002 7.6)
+// ---------------------------------------------------------------------------------------------
+//
+// Bounded-exhaustive: 6 packets 0..=5 sent at non-decreasing instants on a 4-point grid (84 time
+// assignments), every subset of them declared lost (in packet number order, as the recovery manager
+// does), every assignment of the ack-eliciting flag, and the first RTT sample absent / at each grid
+// instant / one grid step later: 84 * 64 * 64 * 6 cases. Reference (RFC 9002 7.6.1/7.6.2,
+// transcribed): the longest span time(j) - time(i) over pairs i <= j of lost ack-eliciting packets,
+// both sent at or after the first RTT sample, with every packet number between them lost as well;
+// 0 without such a pair or without an RTT sample.
+
+use s2n_quic_core::{
+    frame::ack_elicitation::AckElicitation,
+    inet::ExplicitCongestionNotification,
+    recovery::{persistent_congestion::Calculator, SentPacketInfo},
+    transmission,
+};
+
+const PC_N: usize = 6;
+const PC_STEP_MS: u64 = 10;
+
+fn pc_time_vectors() -> &'static Vec<[u8; PC_N]> {
+    static V: std::sync::OnceLock<Vec<[u8; PC_N]>> = std::sync::OnceLock::new();
+    V.get_or_init(pc_time_vectors_build)
+}
+
+fn pc_time_vectors_build() -> Vec<[u8; PC_N]> {
+    // all non-decreasing vectors over 0..=3
+    let mut out = Vec::new();
+    fn rec(k: usize, lo: u8, cur: &mut [u8; PC_N], out: &mut Vec<[u8; PC_N]>) {
+        if k == PC_N {
+            out.push(*cur);
+            return;
+        }
+        for v in lo..=3 {
+            cur[k] = v;
+            rec(k + 1, v, cur, out);
+        }
+    }
+    rec(0, 0, &mut [0; PC_N], &mut out);
+    out
+}
+
+fn pc_cases() -> u64 {
+    pc_time_vectors().len() as u64 * 64 * 64 * 6
+}
+
+struct PcCase {
+    times: [u8; PC_N],
+    lost: u8,
+    eliciting: u8,
+    /// None, or grid index 0..=4 of the first RTT sample
+    first_sample: Option<u8>,
+}
+
+fn pc_case(i: u64) -> PcCase {
+    let tv = pc_time_vectors();
+    let n = tv.len() as u64;
+    let times = tv[(i % n) as usize];
+    let i = i / n;
+    let lost = (i % 64) as u8;
+    let i = i / 64;
+    let eliciting = (i % 64) as u8;
+    let i = i / 64;
+    let first_sample = if i == 0 { None } else { Some((i - 1) as u8) };
+    PcCase { times, lost, eliciting, first_sample }
+}
+
+fn pc_describe(i: u64) -> Json {
+    let c = pc_case(i);
+    Json::obj()
+        .set("case_index", i)
+        .set("send_times_x10ms", c.times.iter().map(|t| *t as u64).collect::<Vec<u64>>())
+        .set("lost_mask", c.lost as u64)
+        .set("ack_eliciting_mask", c.eliciting as u64)
+        .set("first_rtt_sample_x10ms", c.first_sample.map(|v| v as i128).unwrap_or(-1))
+}
+
+fn pc_check(i: u64) -> Result<u64, Violation> {
+    let c = pc_case(i);
+    let t0 = s2n_quic_core::time::clock::testing::now();
+    let at = |g: u8| t0 + core::time::Duration::from_millis(g as u64 * PC_STEP_MS);
+    let path = unsafe { s2n_quic_core::path::Id::new(0) };
+    let mut calc = Calculator::new(c.first_sample.map(at), path);
+    for k in 0..PC_N {
+        if c.lost & (1 << k) == 0 {
+            continue;
+        }
+        let eliciting = c.eliciting & (1 << k) != 0;
+        let info = SentPacketInfo::new(
+            true,
+            1200,
+            at(c.times[k]),
+            if eliciting { AckElicitation::Eliciting } else { AckElicitation::NonEliciting },
+            path,
+            ExplicitCongestionNotification::default(),
+            transmission::Mode::Normal,
+            (),
+        );
+        calc.on_lost_packet(PacketNumberSpace::ApplicationData.new_packet_number(s2n_quic_core::varint::VarInt::from_u8(k as u8)), &info);
+    }
+    let got = calc.persistent_congestion_duration().as_millis() as u64;
+    // reference
+    let mut want = 0u64;
+    if let Some(fs) = c.first_sample {
+        for a in 0..PC_N {
+            for b in a..PC_N {
+                let ok = |k: usize| c.lost & (1 << k) != 0;
+                let el = |k: usize| c.eliciting & (1 << k) != 0;
+                if !(a..=b).all(ok) || !el(a) || !el(b) || c.times[a] < fs || c.times[b] < fs {
+                    continue;
+                }
+                want = want.max((c.times[b] - c.times[a]) as u64 * PC_STEP_MS);
+            }
+        }
+    }
+    ensure(got == want, "c10.persistent_period", || format!("persistent congestion period {} ms, RFC 9002 7.6 gives {} ms: {}", got, want, pc_describe(i).to_string()))?;
+    Ok(want / PC_STEP_MS)
 }
